@@ -123,6 +123,20 @@ module Coq__1 = struct
 end
 include Coq__1
 
+(** val sub : nat -> nat -> nat **)
+
+let rec sub n0 m =
+  match n0 with
+  | O -> n0
+  | S k -> (match m with
+            | O -> n0
+            | S l -> sub k l)
+
+(** val bool_dec : bool -> bool -> bool **)
+
+let bool_dec b1 b2 =
+  if b1 then if b2 then true else false else if b2 then false else true
+
 (** val eqb : bool -> bool -> bool **)
 
 let eqb b1 b2 =
@@ -156,11 +170,31 @@ module Nat =
     leb (S n0) m
  end
 
+(** val removelast : 'a1 list -> 'a1 list **)
+
+let rec removelast = function
+| [] -> []
+| a :: l0 -> (match l0 with
+              | [] -> []
+              | _ :: _ -> a :: (removelast l0))
+
 (** val rev0 : 'a1 list -> 'a1 list **)
 
 let rec rev0 = function
 | [] -> []
 | x :: l' -> app (rev0 l') (x :: [])
+
+(** val list_eq_dec : ('a1 -> 'a1 -> bool) -> 'a1 list -> 'a1 list -> bool **)
+
+let rec list_eq_dec eq_dec l l' =
+  match l with
+  | [] -> (match l' with
+           | [] -> true
+           | _ :: _ -> false)
+  | y :: l0 ->
+    (match l' with
+     | [] -> false
+     | a :: l1 -> if eq_dec y a then list_eq_dec eq_dec l0 l1 else false)
 
 (** val map : ('a1 -> 'a2) -> 'a1 list -> 'a2 list **)
 
@@ -175,11 +209,26 @@ let rec fold_left f l a0 =
   | [] -> a0
   | b :: t -> fold_left f t (f a0 b)
 
+(** val fold_right : ('a2 -> 'a1 -> 'a1) -> 'a1 -> 'a2 list -> 'a1 **)
+
+let rec fold_right f a0 = function
+| [] -> a0
+| b :: t -> f b (fold_right f a0 t)
+
 (** val filter : ('a1 -> bool) -> 'a1 list -> 'a1 list **)
 
 let rec filter f = function
 | [] -> []
 | x :: l0 -> if f x then x :: (filter f l0) else filter f l0
+
+(** val firstn : nat -> 'a1 list -> 'a1 list **)
+
+let rec firstn n0 l =
+  match n0 with
+  | O -> []
+  | S n1 -> (match l with
+             | [] -> []
+             | a :: l0 -> a :: (firstn n1 l0))
 
 type positive =
 | XI of positive
@@ -626,6 +675,27 @@ let shift c = function
 | Ascii (a1, a2, a3, a4, a5, a6, a7, _) ->
   Ascii (c, a1, a2, a3, a4, a5, a6, a7)
 
+(** val ascii_dec : ascii -> ascii -> bool **)
+
+let ascii_dec a b =
+  let Ascii (b0, b1, b2, b3, b4, b5, b6, b7) = a in
+  let Ascii (b8, b9, b10, b11, b12, b13, b14, b15) = b in
+  if bool_dec b0 b8
+  then if bool_dec b1 b9
+       then if bool_dec b2 b10
+            then if bool_dec b3 b11
+                 then if bool_dec b4 b12
+                      then if bool_dec b5 b13
+                           then if bool_dec b6 b14
+                                then bool_dec b7 b15
+                                else false
+                           else false
+                      else false
+                 else false
+            else false
+       else false
+  else false
+
 (** val eqb0 : ascii -> ascii -> bool **)
 
 let eqb0 a b =
@@ -687,6 +757,18 @@ type string =
 | EmptyString
 | String of ascii * string
 
+(** val string_dec : string -> string -> bool **)
+
+let rec string_dec s x =
+  match s with
+  | EmptyString -> (match x with
+                    | EmptyString -> true
+                    | String (_, _) -> false)
+  | String (a, s0) ->
+    (match x with
+     | EmptyString -> false
+     | String (a0, s1) -> if ascii_dec a a0 then string_dec s0 s1 else false)
+
 (** val eqb1 : string -> string -> bool **)
 
 let rec eqb1 s1 s2 =
@@ -721,6 +803,13 @@ let ltb0 s1 s2 =
   match compare1 s1 s2 with
   | Lt -> true
   | _ -> false
+
+(** val leb0 : string -> string -> bool **)
+
+let leb0 s1 s2 =
+  match compare1 s1 s2 with
+  | Gt -> false
+  | _ -> true
 
 (** val append : string -> string -> string **)
 
@@ -1279,6 +1368,9 @@ type err =
 | EDeserialize of string * err
 | EYamlShape of string
 | EMetaParts
+| EDuplicate of string * string * string * string
+| ENodeFailed of string * err
+| EConfig of string
 | EOther of string
 
 type 'a res =
@@ -3539,6 +3631,54 @@ let rec canon_err = function
     (String ((Ascii (false, false, true, false, true, true, true, false)),
     (String ((Ascii (true, true, false, false, true, true, true, false)),
     EmptyString)))))))))))))))))))
+| EDuplicate (k, n0, p1, p2) ->
+  append (String ((Ascii (true, false, true, false, false, false, true,
+    false)), (String ((Ascii (false, false, true, false, false, false, true,
+    false)), (String ((Ascii (true, false, true, false, true, true, true,
+    false)), (String ((Ascii (false, false, false, false, true, true, true,
+    false)), (String ((Ascii (false, false, true, true, false, true, true,
+    false)), (String ((Ascii (true, false, false, true, false, true, true,
+    false)), (String ((Ascii (true, true, false, false, false, true, true,
+    false)), (String ((Ascii (true, false, false, false, false, true, true,
+    false)), (String ((Ascii (false, false, true, false, true, true, true,
+    false)), (String ((Ascii (true, false, true, false, false, true, true,
+    false)), (String ((Ascii (false, false, false, false, false, true, false,
+    false)), EmptyString))))))))))))))))))))))
+    (append (hx k)
+      (append (String ((Ascii (false, false, false, false, false, true,
+        false, false)), EmptyString))
+        (append (hx n0)
+          (append (String ((Ascii (false, false, false, false, false, true,
+            false, false)), EmptyString))
+            (append (hx p1)
+              (append (String ((Ascii (false, false, false, false, false,
+                true, false, false)), EmptyString)) (hx p2)))))))
+| ENodeFailed (n0, e0) ->
+  append (String ((Ascii (true, false, true, false, false, false, true,
+    false)), (String ((Ascii (false, true, true, true, false, false, true,
+    false)), (String ((Ascii (true, true, true, true, false, true, true,
+    false)), (String ((Ascii (false, false, true, false, false, true, true,
+    false)), (String ((Ascii (true, false, true, false, false, true, true,
+    false)), (String ((Ascii (false, true, true, false, false, false, true,
+    false)), (String ((Ascii (true, false, false, false, false, true, true,
+    false)), (String ((Ascii (true, false, false, true, false, true, true,
+    false)), (String ((Ascii (false, false, true, true, false, true, true,
+    false)), (String ((Ascii (true, false, true, false, false, true, true,
+    false)), (String ((Ascii (false, false, true, false, false, true, true,
+    false)), (String ((Ascii (false, false, false, false, false, true, false,
+    false)), EmptyString))))))))))))))))))))))))
+    (append (hx n0)
+      (append (String ((Ascii (false, false, false, false, false, true,
+        false, false)), EmptyString)) (canon_err e0)))
+| EConfig w ->
+  sp (String ((Ascii (true, false, true, false, false, false, true, false)),
+    (String ((Ascii (true, true, false, false, false, false, true, false)),
+    (String ((Ascii (true, true, true, true, false, true, true, false)),
+    (String ((Ascii (false, true, true, true, false, true, true, false)),
+    (String ((Ascii (false, true, true, false, false, true, true, false)),
+    (String ((Ascii (true, false, false, true, false, true, true, false)),
+    (String ((Ascii (true, true, true, false, false, true, true, false)),
+    EmptyString)))))))))))))) (hx w)
 | EOther m ->
   sp (String ((Ascii (true, false, true, false, false, false, true, false)),
     (String ((Ascii (true, true, true, true, false, false, true, false)),
@@ -3600,6 +3740,748 @@ let rec canon_token = function
        append (String ((Ascii (false, false, false, false, false, true,
          false, false)), EmptyString)) (append (canon_token x) (go xs))
      in go ts)
+
+(** val count_dots : string -> nat * string **)
+
+let rec count_dots s = match s with
+| EmptyString -> (O, s)
+| String (a, s') ->
+  let Ascii (b, b0, b1, b2, b3, b4, b5, b6) = a in
+  if b
+  then (O, s)
+  else if b0
+       then if b1
+            then if b2
+                 then if b3
+                      then (O, s)
+                      else if b4
+                           then if b5
+                                then (O, s)
+                                else if b6
+                                     then (O, s)
+                                     else let (n0, r) = count_dots s' in
+                                          ((S n0), r)
+                           else (O, s)
+                 else (O, s)
+            else (O, s)
+       else (O, s)
+
+(** val drop_last : nat -> string list -> string list **)
+
+let drop_last n0 l =
+  firstn (sub (length l) n0) l
+
+(** val abs_class_name : string list -> string -> string **)
+
+let abs_class_name loc cls =
+  let (n0, rest) = count_dots cls in
+  (match n0 with
+   | O -> cls
+   | S n1 ->
+     append
+       (concat_str
+         (map (fun p ->
+           append p (String ((Ascii (false, true, true, true, false, true,
+             false, false)), EmptyString))) (drop_last n1 loc))) rest)
+
+(** val rindex_dot : string -> nat -> nat option -> nat option **)
+
+let rec rindex_dot s i last =
+  match s with
+  | EmptyString -> last
+  | String (c, s') ->
+    rindex_dot s' (S i)
+      (if eqb0 c (Ascii (false, true, true, true, false, true, false, false))
+       then Some i
+       else last)
+
+(** val take_str : nat -> string -> string **)
+
+let rec take_str n0 s =
+  match n0 with
+  | O -> EmptyString
+  | S n' ->
+    (match s with
+     | EmptyString -> EmptyString
+     | String (c, s') -> String (c, (take_str n' s')))
+
+(** val drop_str : nat -> string -> string **)
+
+let rec drop_str n0 s =
+  match n0 with
+  | O -> s
+  | S n' -> (match s with
+             | EmptyString -> s
+             | String (_, s') -> drop_str n' s')
+
+(** val split_ext : string -> string * string option **)
+
+let split_ext name =
+  if eqb1 name (String ((Ascii (false, true, true, true, false, true, false,
+       false)), (String ((Ascii (false, true, true, true, false, true, false,
+       false)), EmptyString))))
+  then (name, None)
+  else (match rindex_dot name O None with
+        | Some i ->
+          (match i with
+           | O -> (name, None)
+           | S _ -> ((take_str i name), (Some (drop_str (S i) name))))
+        | None -> (name, None))
+
+(** val is_yaml_ext : string option -> bool **)
+
+let is_yaml_ext = function
+| Some x ->
+  (||)
+    (eqb1 x (String ((Ascii (true, false, false, true, true, true, true,
+      false)), (String ((Ascii (true, false, true, true, false, true, true,
+      false)), (String ((Ascii (false, false, true, true, false, true, true,
+      false)), EmptyString)))))))
+    (eqb1 x (String ((Ascii (true, false, false, true, true, true, true,
+      false)), (String ((Ascii (true, false, false, false, false, true, true,
+      false)), (String ((Ascii (true, false, true, true, false, true, true,
+      false)), (String ((Ascii (false, false, true, true, false, true, true,
+      false)), EmptyString)))))))))
+| None -> false
+
+(** val last_seg : string list -> string **)
+
+let rec last_seg = function
+| [] -> EmptyString
+| x :: l' -> (match l' with
+              | [] -> x
+              | _ :: _ -> last_seg l')
+
+(** val starts_with_underscore : string -> bool **)
+
+let starts_with_underscore = function
+| EmptyString -> false
+| String (a, _) ->
+  let Ascii (b, b0, b1, b2, b3, b4, b5, b6) = a in
+  if b
+  then if b0
+       then if b1
+            then if b2
+                 then if b3
+                      then if b4
+                           then false
+                           else if b5
+                                then if b6 then false else true
+                                else false
+                      else false
+                 else false
+            else false
+       else false
+  else false
+
+type ekind =
+| KNode
+| KClass
+
+type entity = { en_name : string; en_path : string list; en_loc : string list }
+
+(** val entity_of : ekind -> bool -> string list -> entity option **)
+
+let entity_of kind compose relpath =
+  match rev0 relpath with
+  | [] -> None
+  | fname :: rparent ->
+    let parent = rev0 rparent in
+    let (stem, ext) = split_ext fname in
+    if is_yaml_ext ext
+    then if eqb1 stem (String ((Ascii (true, false, false, true, false, true,
+              true, false)), (String ((Ascii (false, true, true, true, false,
+              true, true, false)), (String ((Ascii (true, false, false, true,
+              false, true, true, false)), (String ((Ascii (false, false,
+              true, false, true, true, true, false)), EmptyString))))))))
+         then let loc = removelast parent in
+              let clsstr =
+                join (String ((Ascii (true, true, true, true, false, true,
+                  false, false)), EmptyString)) parent
+              in
+              (match kind with
+               | KNode ->
+                 if (||) (starts_with_underscore clsstr) (negb compose)
+                 then let cls2 = (last_seg parent) :: [] in
+                      let loc2 = [] in
+                      Some { en_name =
+                      (join (String ((Ascii (false, true, true, true, false,
+                        true, false, false)), EmptyString)) cls2); en_path =
+                      relpath; en_loc = loc2 }
+                 else Some { en_name =
+                        (join (String ((Ascii (false, true, true, true,
+                          false, true, false, false)), EmptyString)) parent);
+                        en_path = relpath; en_loc = loc }
+               | KClass ->
+                 Some { en_name =
+                   (join (String ((Ascii (false, true, true, true, false,
+                     true, false, false)), EmptyString)) parent); en_path =
+                   relpath; en_loc = loc })
+         else let cls = app parent (stem :: []) in
+              let clsstr =
+                join (String ((Ascii (true, true, true, true, false, true,
+                  false, false)), EmptyString)) cls
+              in
+              (match kind with
+               | KNode ->
+                 if (||) (starts_with_underscore clsstr) (negb compose)
+                 then let cls2 = (last_seg cls) :: [] in
+                      let loc2 = [] in
+                      Some { en_name =
+                      (join (String ((Ascii (false, true, true, true, false,
+                        true, false, false)), EmptyString)) cls2); en_path =
+                      relpath; en_loc = loc2 }
+                 else Some { en_name =
+                        (join (String ((Ascii (false, true, true, true,
+                          false, true, false, false)), EmptyString)) cls);
+                        en_path = relpath; en_loc = parent }
+               | KClass ->
+                 Some { en_name =
+                   (join (String ((Ascii (false, true, true, true, false,
+                     true, false, false)), EmptyString)) cls); en_path =
+                   relpath; en_loc = parent })
+    else None
+
+(** val find_entity : string -> entity list -> entity option **)
+
+let rec find_entity n0 = function
+| [] -> None
+| e :: es' -> if eqb1 e.en_name n0 then Some e else find_entity n0 es'
+
+(** val kind_name : ekind -> string **)
+
+let kind_name = function
+| KNode ->
+  String ((Ascii (false, true, true, true, false, true, true, false)),
+    (String ((Ascii (true, true, true, true, false, true, true, false)),
+    (String ((Ascii (false, false, true, false, false, true, true, false)),
+    (String ((Ascii (true, false, true, false, false, true, true, false)),
+    EmptyString)))))))
+| KClass ->
+  String ((Ascii (true, true, false, false, false, true, true, false)),
+    (String ((Ascii (false, false, true, true, false, true, true, false)),
+    (String ((Ascii (true, false, false, false, false, true, true, false)),
+    (String ((Ascii (true, true, false, false, true, true, true, false)),
+    (String ((Ascii (true, true, false, false, true, true, true, false)),
+    EmptyString)))))))))
+
+(** val discover_from :
+    ekind -> bool -> string list list -> entity list -> entity list res **)
+
+let rec discover_from kind compose entries acc =
+  match entries with
+  | [] -> Ok acc
+  | p :: rest ->
+    (match entity_of kind compose p with
+     | Some e ->
+       (match find_entity e.en_name acc with
+        | Some prev ->
+          let a =
+            join (String ((Ascii (true, true, true, true, false, true, false,
+              false)), EmptyString)) prev.en_path
+          in
+          let b =
+            join (String ((Ascii (true, true, true, true, false, true, false,
+              false)), EmptyString)) p
+          in
+          if ltb0 a b
+          then Err (EDuplicate ((kind_name kind), e.en_name, a, b))
+          else Err (EDuplicate ((kind_name kind), e.en_name, b, a))
+        | None -> discover_from kind compose rest (app acc (e :: [])))
+     | None -> discover_from kind compose rest acc)
+
+(** val discover : ekind -> bool -> string list list -> entity list res **)
+
+let discover kind compose entries =
+  discover_from kind compose entries []
+
+type ncfg = { c_ignore : bool; c_matches : string list; c_compose : bool;
+              c_literal_dots : bool }
+
+type node = { n_apps : rlist; n_classes : ulist; n_params : mapping;
+              n_loc : string list }
+
+(** val empty_node : node **)
+
+let empty_node =
+  { n_apps = r_empty; n_classes = []; n_params = []; n_loc = [] }
+
+type cls_entry = { ce_name : string; ce_doc : yaml; ce_loc : string list }
+
+(** val find_class : string -> cls_entry list -> cls_entry option **)
+
+let rec find_class n0 = function
+| [] -> None
+| e :: tbl' -> if eqb1 e.ce_name n0 then Some e else find_class n0 tbl'
+
+(** val y_field : string -> (yaml * yaml) list -> yaml option **)
+
+let rec y_field name = function
+| [] -> None
+| p :: l' ->
+  let (y, v) = p in
+  (match y with
+   | YStr k -> if eqb1 k name then Some v else y_field name l'
+   | _ -> y_field name l')
+
+(** val y_strings : yaml list -> string list option **)
+
+let rec y_strings = function
+| [] -> Some []
+| y :: l' ->
+  (match y with
+   | YStr s -> option_map (fun x -> s :: x) (y_strings l')
+   | _ -> None)
+
+(** val y_string_list : string -> yaml option -> string list res **)
+
+let y_string_list what = function
+| Some y ->
+  (match y with
+   | YSeq l ->
+     (match y_strings l with
+      | Some ss -> Ok ss
+      | None -> Err (EYamlShape what))
+   | _ -> Err (EYamlShape what))
+| None -> Ok []
+
+(** val node_of_yaml : string list -> yaml -> node res **)
+
+let node_of_yaml loc = function
+| YMap fields ->
+  bind
+    (y_string_list (String ((Ascii (true, false, false, false, false, true,
+      true, false)), (String ((Ascii (false, false, false, false, true, true,
+      true, false)), (String ((Ascii (false, false, false, false, true, true,
+      true, false)), (String ((Ascii (false, false, true, true, false, true,
+      true, false)), (String ((Ascii (true, false, false, true, false, true,
+      true, false)), (String ((Ascii (true, true, false, false, false, true,
+      true, false)), (String ((Ascii (true, false, false, false, false, true,
+      true, false)), (String ((Ascii (false, false, true, false, true, true,
+      true, false)), (String ((Ascii (true, false, false, true, false, true,
+      true, false)), (String ((Ascii (true, true, true, true, false, true,
+      true, false)), (String ((Ascii (false, true, true, true, false, true,
+      true, false)), (String ((Ascii (true, true, false, false, true, true,
+      true, false)), EmptyString))))))))))))))))))))))))
+      (y_field (String ((Ascii (true, false, false, false, false, true, true,
+        false)), (String ((Ascii (false, false, false, false, true, true,
+        true, false)), (String ((Ascii (false, false, false, false, true,
+        true, true, false)), (String ((Ascii (false, false, true, true,
+        false, true, true, false)), (String ((Ascii (true, false, false,
+        true, false, true, true, false)), (String ((Ascii (true, true, false,
+        false, false, true, true, false)), (String ((Ascii (true, false,
+        false, false, false, true, true, false)), (String ((Ascii (false,
+        false, true, false, true, true, true, false)), (String ((Ascii (true,
+        false, false, true, false, true, true, false)), (String ((Ascii
+        (true, true, true, true, false, true, true, false)), (String ((Ascii
+        (false, true, true, true, false, true, true, false)), (String ((Ascii
+        (true, true, false, false, true, true, true, false)),
+        EmptyString)))))))))))))))))))))))) fields)) (fun apps ->
+    bind
+      (y_string_list (String ((Ascii (true, true, false, false, false, true,
+        true, false)), (String ((Ascii (false, false, true, true, false,
+        true, true, false)), (String ((Ascii (true, false, false, false,
+        false, true, true, false)), (String ((Ascii (true, true, false,
+        false, true, true, true, false)), (String ((Ascii (true, true, false,
+        false, true, true, true, false)), (String ((Ascii (true, false, true,
+        false, false, true, true, false)), (String ((Ascii (true, true,
+        false, false, true, true, true, false)), EmptyString))))))))))))))
+        (y_field (String ((Ascii (true, true, false, false, false, true,
+          true, false)), (String ((Ascii (false, false, true, true, false,
+          true, true, false)), (String ((Ascii (true, false, false, false,
+          false, true, true, false)), (String ((Ascii (true, true, false,
+          false, true, true, true, false)), (String ((Ascii (true, true,
+          false, false, true, true, true, false)), (String ((Ascii (true,
+          false, true, false, false, true, true, false)), (String ((Ascii
+          (true, true, false, false, true, true, true, false)),
+          EmptyString)))))))))))))) fields)) (fun classes ->
+      bind
+        (match y_field (String ((Ascii (false, false, false, false, true,
+                 true, true, false)), (String ((Ascii (true, false, false,
+                 false, false, true, true, false)), (String ((Ascii (false,
+                 true, false, false, true, true, true, false)), (String
+                 ((Ascii (true, false, false, false, false, true, true,
+                 false)), (String ((Ascii (true, false, true, true, false,
+                 true, true, false)), (String ((Ascii (true, false, true,
+                 false, false, true, true, false)), (String ((Ascii (false,
+                 false, true, false, true, true, true, false)), (String
+                 ((Ascii (true, false, true, false, false, true, true,
+                 false)), (String ((Ascii (false, true, false, false, true,
+                 true, true, false)), (String ((Ascii (true, true, false,
+                 false, true, true, true, false)),
+                 EmptyString)))))))))))))))))))) fields with
+         | Some y ->
+           (match y with
+            | YMap m -> Ok (YMap m)
+            | _ ->
+              Err (EYamlShape (String ((Ascii (false, false, false, false,
+                true, true, true, false)), (String ((Ascii (true, false,
+                false, false, false, true, true, false)), (String ((Ascii
+                (false, true, false, false, true, true, true, false)),
+                (String ((Ascii (true, false, false, false, false, true,
+                true, false)), (String ((Ascii (true, false, true, true,
+                false, true, true, false)), (String ((Ascii (true, false,
+                true, false, false, true, true, false)), (String ((Ascii
+                (false, false, true, false, true, true, true, false)),
+                (String ((Ascii (true, false, true, false, false, true, true,
+                false)), (String ((Ascii (false, true, false, false, true,
+                true, true, false)), (String ((Ascii (true, true, false,
+                false, true, true, true, false)),
+                EmptyString))))))))))))))))))))))
+         | None -> Ok (YMap [])) (fun pdoc ->
+        let classes' =
+          fold_left u_append (map (abs_class_name loc) (u_from classes)) []
+        in
+        bind (mapping_of_yaml pdoc) (fun params -> Ok { n_apps =
+          (r_from apps); n_classes = classes'; n_params = params; n_loc =
+          loc }))))
+| _ ->
+  Err (EYamlShape (String ((Ascii (false, false, true, false, false, true,
+    true, false)), (String ((Ascii (true, true, true, true, false, true,
+    true, false)), (String ((Ascii (true, true, false, false, false, true,
+    true, false)), (String ((Ascii (true, false, true, false, true, true,
+    true, false)), (String ((Ascii (true, false, true, true, false, true,
+    true, false)), (String ((Ascii (true, false, true, false, false, true,
+    true, false)), (String ((Ascii (false, true, true, true, false, true,
+    true, false)), (String ((Ascii (false, false, true, false, true, true,
+    true, false)), EmptyString)))))))))))))))))
+
+(** val read_class :
+    ncfg -> cls_entry list -> string list -> string -> node option res **)
+
+let read_class cfg tbl self_loc name =
+  let cls = abs_class_name self_loc name in
+  (match find_class cls tbl with
+   | Some ce ->
+     bind
+       (map_err (fun x -> EDeserialize (cls, x))
+         (node_of_yaml ce.ce_loc ce.ce_doc)) (fun n0 -> Ok (Some n0))
+   | None ->
+     if (&&) cfg.c_ignore (mem cls cfg.c_matches)
+     then Ok None
+     else Err (EClassNotFound cls))
+
+(** val merge_into : node -> node -> (node * node) res **)
+
+let merge_into self other =
+  let apps = r_merge other.n_apps self.n_apps in
+  let classes = u_merge other.n_classes self.n_classes in
+  bind (mapping_merge other.n_params self.n_params) (fun params -> Ok
+    ({ n_apps = apps; n_classes = classes; n_params = params; n_loc =
+    self.n_loc }, { n_apps = apps; n_classes = classes; n_params = params;
+    n_loc = other.n_loc }))
+
+(** val include_name : nat -> mapping -> string -> string res **)
+
+let include_name fi root_params cls =
+  if contains cls (String ((Ascii (false, false, true, false, false, true,
+       false, false)), (String ((Ascii (true, true, false, true, true, true,
+       true, false)), EmptyString))))
+  then (match token_parse cls with
+        | NoRef -> Ok cls
+        | Parsed t ->
+          bind (token_render fi root_params t st0) (fun pat ->
+            let (v, _) = pat in raw_string v)
+        | ParseError -> Err (EParse cls)
+        | ParseFuel -> OutOfFuel)
+  else Ok cls
+
+(** val render_impl :
+    nat -> nat -> ncfg -> cls_entry list -> node -> string list -> node ->
+    ((node * string list) * node) res **)
+
+let rec render_impl f fi cfg tbl self seen0 root =
+  match f with
+  | O -> OutOfFuel
+  | S f' ->
+    bind
+      (let rec go cs seen1 root0 =
+         match cs with
+         | [] -> Ok (seen1, root0)
+         | c :: cs' ->
+           bind (include_name fi root0.n_params c) (fun name ->
+             if mem name seen1
+             then go cs' seen1 root0
+             else bind (read_class cfg tbl self.n_loc name) (fun r ->
+                    match r with
+                    | Some cn ->
+                      bind (render_impl f' fi cfg tbl cn seen1 root0)
+                        (fun pat ->
+                        let (p, root1) = pat in
+                        let (_, seen2) = p in
+                        go cs' (app seen2 (name :: [])) root1)
+                    | None -> go cs' seen1 root0))
+       in go self.n_classes seen0 root) (fun pat ->
+      let (seen', root') = pat in
+      bind (merge_into self root') (fun pat0 ->
+        let (self', root'') = pat0 in Ok ((self', seen'), root'')))
+
+type nmeta = { m_name : string; m_uri : string; m_parts : string list }
+
+(** val as_reclass : ncfg -> nmeta -> mapping res **)
+
+let as_reclass cfg meta =
+  match meta.m_parts with
+  | [] -> Err EMetaParts
+  | part0 :: _ ->
+    let parts =
+      if (&&) cfg.c_compose cfg.c_literal_dots
+      then split_on (Ascii (false, true, true, true, false, true, false,
+             false)) meta.m_name
+      else if starts_with_underscore part0
+           then (last_seg meta.m_parts) :: []
+           else meta.m_parts
+    in
+    let namedata =
+      (mk_entry (VStr (String ((Ascii (false, true, true, false, false, true,
+        true, false)), (String ((Ascii (true, false, true, false, true, true,
+        true, false)), (String ((Ascii (false, false, true, true, false,
+        true, true, false)), (String ((Ascii (false, false, true, true,
+        false, true, true, false)), EmptyString))))))))) (VStr meta.m_name)
+        false false) :: ((mk_entry (VStr (String ((Ascii (false, false,
+                           false, false, true, true, true, false)), (String
+                           ((Ascii (true, false, false, false, false, true,
+                           true, false)), (String ((Ascii (false, true,
+                           false, false, true, true, true, false)), (String
+                           ((Ascii (false, false, true, false, true, true,
+                           true, false)), (String ((Ascii (true, true, false,
+                           false, true, true, true, false)),
+                           EmptyString))))))))))) (VSeq
+                           (map (fun x -> VStr x) parts)) false false) :: (
+      (mk_entry (VStr (String ((Ascii (false, false, false, false, true,
+        true, true, false)), (String ((Ascii (true, false, false, false,
+        false, true, true, false)), (String ((Ascii (false, false, true,
+        false, true, true, true, false)), (String ((Ascii (false, false,
+        false, true, false, true, true, false)), EmptyString))))))))) (VStr
+        (join (String ((Ascii (true, true, true, true, false, true, false,
+          false)), EmptyString)) parts)) false false) :: ((mk_entry (VStr
+                                                            (String ((Ascii
+                                                            (true, true,
+                                                            false, false,
+                                                            true, true, true,
+                                                            false)), (String
+                                                            ((Ascii (false,
+                                                            false, false,
+                                                            true, false,
+                                                            true, true,
+                                                            false)), (String
+                                                            ((Ascii (true,
+                                                            true, true, true,
+                                                            false, true,
+                                                            true, false)),
+                                                            (String ((Ascii
+                                                            (false, true,
+                                                            false, false,
+                                                            true, true, true,
+                                                            false)), (String
+                                                            ((Ascii (false,
+                                                            false, true,
+                                                            false, true,
+                                                            true, true,
+                                                            false)),
+                                                            EmptyString)))))))))))
+                                                            (VStr
+                                                            (last_seg parts))
+                                                            false false) :: [])))
+    in
+    Ok
+    ((mk_entry (VStr (String ((Ascii (true, false, true, false, false, true,
+       true, false)), (String ((Ascii (false, true, true, true, false, true,
+       true, false)), (String ((Ascii (false, true, true, false, true, true,
+       true, false)), (String ((Ascii (true, false, false, true, false, true,
+       true, false)), (String ((Ascii (false, true, false, false, true, true,
+       true, false)), (String ((Ascii (true, true, true, true, false, true,
+       true, false)), (String ((Ascii (false, true, true, true, false, true,
+       true, false)), (String ((Ascii (true, false, true, true, false, true,
+       true, false)), (String ((Ascii (true, false, true, false, false, true,
+       true, false)), (String ((Ascii (false, true, true, true, false, true,
+       true, false)), (String ((Ascii (false, false, true, false, true, true,
+       true, false)), EmptyString))))))))))))))))))))))) (VStr (String
+       ((Ascii (false, true, false, false, false, true, true, false)),
+       (String ((Ascii (true, false, false, false, false, true, true,
+       false)), (String ((Ascii (true, true, false, false, true, true, true,
+       false)), (String ((Ascii (true, false, true, false, false, true, true,
+       false)), EmptyString))))))))) false false) :: ((mk_entry (VStr (String
+                                                        ((Ascii (false, true,
+                                                        true, true, false,
+                                                        true, true, false)),
+                                                        (String ((Ascii
+                                                        (true, false, false,
+                                                        false, false, true,
+                                                        true, false)),
+                                                        (String ((Ascii
+                                                        (true, false, true,
+                                                        true, false, true,
+                                                        true, false)),
+                                                        (String ((Ascii
+                                                        (true, false, true,
+                                                        false, false, true,
+                                                        true, false)),
+                                                        EmptyString)))))))))
+                                                        (VMap namedata) false
+                                                        false) :: []))
+
+(** val render_params : nat -> node -> node res **)
+
+let render_params fi n0 =
+  bind (render_with_self fi (VMap n0.n_params)) (fun v ->
+    match v with
+    | VMap m ->
+      Ok { n_apps = n0.n_apps; n_classes = n0.n_classes; n_params = m;
+        n_loc = n0.n_loc }
+    | _ -> Err (ERenderNonMapping (variant v)))
+
+(** val node_render :
+    nat -> nat -> ncfg -> cls_entry list -> node -> nmeta -> node res **)
+
+let node_render f fi cfg tbl n0 meta =
+  bind (as_reclass cfg meta) (fun rc ->
+    bind
+      (m_insert [] (VStr (String ((Ascii (true, true, true, true, true,
+        false, true, false)), (String ((Ascii (false, true, false, false,
+        true, true, true, false)), (String ((Ascii (true, false, true, false,
+        false, true, true, false)), (String ((Ascii (true, true, false,
+        false, false, true, true, false)), (String ((Ascii (false, false,
+        true, true, false, true, true, false)), (String ((Ascii (true, false,
+        false, false, false, true, true, false)), (String ((Ascii (true,
+        true, false, false, true, true, true, false)), (String ((Ascii (true,
+        true, false, false, true, true, true, false)), (String ((Ascii (true,
+        true, true, true, true, false, true, false)),
+        EmptyString))))))))))))))))))) (VMap rc)) (fun p0 ->
+      let base = { n_apps = r_empty; n_classes = n0.n_classes; n_params = p0;
+        n_loc = [] }
+      in
+      bind (render_impl f fi cfg tbl base [] empty_node) (fun pat ->
+        let (p, _) = pat in
+        let (base1, seen1) = p in
+        bind (render_impl f fi cfg tbl n0 seen1 base1) (fun pat0 ->
+          let (p1, _) = pat0 in let (n1, _) = p1 in render_params fi n1))))
+
+type node_entry = { ne_name : string; ne_path : string list; ne_doc : yaml }
+
+(** val find_node : string -> node_entry list -> node_entry option **)
+
+let rec find_node n0 = function
+| [] -> None
+| e :: tbl' -> if eqb1 e.ne_name n0 then Some e else find_node n0 tbl'
+
+type nodeinfo = { ni_node : string; ni_name : string; ni_uri : string;
+                  ni_env : string; ni_apps : string list;
+                  ni_classes : string list; ni_params : mapping }
+
+(** val strip_ext_path : string list -> string list **)
+
+let strip_ext_path p =
+  match rev0 p with
+  | [] -> []
+  | f :: r -> app (rev0 r) ((fst (split_ext f)) :: [])
+
+(** val render_node :
+    nat -> nat -> ncfg -> string -> node_entry list -> cls_entry list ->
+    string -> nodeinfo res **)
+
+let render_node f fi cfg nodes_root ntbl ctbl name =
+  match find_node name ntbl with
+  | Some ne ->
+    let uri =
+      append (String ((Ascii (true, false, false, true, true, true, true,
+        false)), (String ((Ascii (true, false, false, false, false, true,
+        true, false)), (String ((Ascii (true, false, true, true, false, true,
+        true, false)), (String ((Ascii (false, false, true, true, false,
+        true, true, false)), (String ((Ascii (true, true, true, true, true,
+        false, true, false)), (String ((Ascii (false, true, true, false,
+        false, true, true, false)), (String ((Ascii (true, true, false,
+        false, true, true, true, false)), (String ((Ascii (false, true,
+        false, true, true, true, false, false)), (String ((Ascii (true, true,
+        true, true, false, true, false, false)), (String ((Ascii (true, true,
+        true, true, false, true, false, false)),
+        EmptyString))))))))))))))))))))
+        (append nodes_root
+          (append (String ((Ascii (true, true, true, true, false, true,
+            false, false)), EmptyString))
+            (join (String ((Ascii (true, true, true, true, false, true,
+              false, false)), EmptyString)) ne.ne_path)))
+    in
+    let parts =
+      if cfg.c_compose
+      then strip_ext_path ne.ne_path
+      else if eqb1 name EmptyString then [] else name :: []
+    in
+    bind (node_of_yaml [] ne.ne_doc) (fun n0 ->
+      bind
+        (node_render f fi cfg ctbl n0 { m_name = name; m_uri = uri; m_parts =
+          parts }) (fun n' -> Ok { ni_node = name; ni_name = name; ni_uri =
+        uri; ni_env = (String ((Ascii (false, true, false, false, false,
+        true, true, false)), (String ((Ascii (true, false, false, false,
+        false, true, true, false)), (String ((Ascii (true, true, false,
+        false, true, true, true, false)), (String ((Ascii (true, false, true,
+        false, false, true, true, false)), EmptyString)))))))); ni_apps =
+        n'.n_apps.r_items; ni_classes = n'.n_classes; ni_params =
+        n'.n_params }))
+  | None -> Err (EUnknownNode name)
+
+(** val insert_sorted : string -> string list -> string list **)
+
+let rec insert_sorted x l = match l with
+| [] -> x :: []
+| y :: l' -> if leb0 x y then x :: l else y :: (insert_sorted x l')
+
+(** val sort_strings : string list -> string list **)
+
+let sort_strings l =
+  fold_right insert_sorted [] l
+
+type index = (string * string list) list
+
+(** val index_push : string -> string -> index -> index **)
+
+let rec index_push k n0 = function
+| [] -> (k, (n0 :: [])) :: []
+| p :: ix' ->
+  let (k', ns) = p in
+  if eqb1 k' k
+  then (k', (app ns (n0 :: []))) :: ix'
+  else (k', ns) :: (index_push k n0 ix')
+
+(** val index_sort : index -> index **)
+
+let index_sort ix =
+  map (fun pat -> let (k, ns) = pat in (k, (sort_strings ns))) ix
+
+type inventory = { inv_apps : index; inv_classes : index;
+                   inv_nodes : (string * nodeinfo) list }
+
+(** val inv_step : inventory -> string -> nodeinfo -> inventory **)
+
+let inv_step inv name info =
+  let cls =
+    fold_left (fun ix c -> index_push c name ix) info.ni_classes
+      inv.inv_classes
+  in
+  let aps =
+    fold_left (fun ix a -> index_push a name ix) info.ni_apps inv.inv_apps
+  in
+  { inv_apps = (index_sort aps); inv_classes = (index_sort cls); inv_nodes =
+  (app inv.inv_nodes ((name, info) :: [])) }
+
+(** val inventory_of :
+    (string * nodeinfo res) list -> inventory -> inventory res **)
+
+let rec inventory_of rs inv =
+  match rs with
+  | [] -> Ok inv
+  | p :: rs' ->
+    let (name, r) = p in
+    (match r with
+     | Ok info -> inventory_of rs' (inv_step inv name info)
+     | Err e -> Err (ENodeFailed (name, e))
+     | Panic s -> Panic s
+     | OutOfFuel -> OutOfFuel)
+
+(** val empty_inventory : inventory **)
+
+let empty_inventory =
+  { inv_apps = []; inv_classes = []; inv_nodes = [] }
 
 (** val run_fuel : nat **)
 
@@ -4152,3 +5034,1730 @@ let run_line line =
                                   true, false)), (String ((Ascii (true,
                                   false, true, false, false, true, true,
                                   false)), EmptyString))))))))))))))))
+
+(** val inc_fuel : nat **)
+
+let inc_fuel =
+  S (S (S (S (S (S (S (S (S (S (S (S (S (S (S (S (S (S (S (S (S (S (S (S (S
+    (S (S (S (S (S (S (S (S (S (S (S (S (S (S (S (S (S (S (S (S (S (S (S (S
+    (S (S (S (S (S (S (S (S (S (S (S (S (S (S (S (S (S (S (S (S (S (S (S (S
+    (S (S (S (S (S (S (S (S (S (S (S (S (S (S (S (S (S (S (S (S (S (S (S (S
+    (S (S (S (S (S (S (S (S (S (S (S (S (S (S (S (S (S (S (S (S (S (S (S (S
+    (S (S (S (S (S (S (S (S (S (S (S (S (S (S (S (S (S (S (S (S (S (S (S (S
+    (S (S (S (S (S (S (S (S (S (S (S (S (S (S (S (S (S (S (S (S (S (S (S (S
+    (S (S (S (S (S (S (S (S (S (S (S (S (S (S (S (S (S (S (S (S (S (S (S (S
+    (S (S (S (S (S (S (S
+    O)))))))))))))))))))))))))))))))))))))))))))))))))))))))))))))))))))))))))))))))))))))))))))))))))))))))))))))))))))))))))))))))))))))))))))))))))))))))))))))))))))))))))))))))))))))))))))))))))))))))
+
+(** val p_bool : string -> bool option **)
+
+let p_bool t =
+  if eqb1 t (String ((Ascii (false, false, true, false, true, false, true,
+       false)), EmptyString))
+  then Some true
+  else if eqb1 t (String ((Ascii (false, true, true, false, false, false,
+            true, false)), EmptyString))
+       then Some false
+       else None
+
+(** val p_file :
+    string list -> ((string list * yaml option) * string list) option **)
+
+let p_file = function
+| [] -> None
+| k :: ts1 ->
+  (match nat_of_string k with
+   | Some k0 ->
+     (match p_strs k0 ts1 with
+      | Some p ->
+        let (path, ts2) = p in
+        (match ts2 with
+         | [] ->
+           (match p_yaml (S (length ts2)) ts2 with
+            | Some p0 -> let (y, ts3) = p0 in Some ((path, (Some y)), ts3)
+            | None -> None)
+         | s :: ts3 ->
+           (match s with
+            | EmptyString ->
+              (match p_yaml (S (length ts2)) ts2 with
+               | Some p0 -> let (y, ts4) = p0 in Some ((path, (Some y)), ts4)
+               | None -> None)
+            | String (a, s0) ->
+              let Ascii (b, b0, b1, b2, b3, b4, b5, b6) = a in
+              if b
+              then (match p_yaml (S (length ts2)) ts2 with
+                    | Some p0 ->
+                      let (y, ts4) = p0 in Some ((path, (Some y)), ts4)
+                    | None -> None)
+              else if b0
+                   then (match p_yaml (S (length ts2)) ts2 with
+                         | Some p0 ->
+                           let (y, ts4) = p0 in Some ((path, (Some y)), ts4)
+                         | None -> None)
+                   else if b1
+                        then (match p_yaml (S (length ts2)) ts2 with
+                              | Some p0 ->
+                                let (y, ts4) = p0 in
+                                Some ((path, (Some y)), ts4)
+                              | None -> None)
+                        else if b2
+                             then if b3
+                                  then if b4
+                                       then (match p_yaml (S (length ts2)) ts2 with
+                                             | Some p0 ->
+                                               let (y, ts4) = p0 in
+                                               Some ((path, (Some y)), ts4)
+                                             | None -> None)
+                                       else if b5
+                                            then if b6
+                                                 then (match p_yaml (S
+                                                               (length ts2))
+                                                               ts2 with
+                                                       | Some p0 ->
+                                                         let (y, ts4) = p0 in
+                                                         Some ((path, (Some
+                                                         y)), ts4)
+                                                       | None -> None)
+                                                 else (match s0 with
+                                                       | EmptyString ->
+                                                         Some ((path, None),
+                                                           ts3)
+                                                       | String (_, _) ->
+                                                         (match p_yaml (S
+                                                                  (length ts2))
+                                                                  ts2 with
+                                                          | Some p0 ->
+                                                            let (y, ts4) = p0
+                                                            in
+                                                            Some ((path,
+                                                            (Some y)), ts4)
+                                                          | None -> None))
+                                            else (match p_yaml (S
+                                                          (length ts2)) ts2 with
+                                                  | Some p0 ->
+                                                    let (y, ts4) = p0 in
+                                                    Some ((path, (Some y)),
+                                                    ts4)
+                                                  | None -> None)
+                                  else (match p_yaml (S (length ts2)) ts2 with
+                                        | Some p0 ->
+                                          let (y, ts4) = p0 in
+                                          Some ((path, (Some y)), ts4)
+                                        | None -> None)
+                             else (match p_yaml (S (length ts2)) ts2 with
+                                   | Some p0 ->
+                                     let (y, ts4) = p0 in
+                                     Some ((path, (Some y)), ts4)
+                                   | None -> None)))
+      | None -> None)
+   | None -> None)
+
+(** val p_files :
+    nat -> string list -> ((string list * yaml option) list * string list)
+    option **)
+
+let rec p_files n0 ts =
+  match n0 with
+  | O -> Some ([], ts)
+  | S n' ->
+    (match p_file ts with
+     | Some p ->
+       let (f, ts1) = p in
+       (match p_files n' ts1 with
+        | Some p0 -> let (fs, ts2) = p0 in Some ((f :: fs), ts2)
+        | None -> None)
+     | None -> None)
+
+(** val p_count_files :
+    string list -> ((string list * yaml option) list * string list) option **)
+
+let p_count_files = function
+| [] -> None
+| n0 :: ts' ->
+  (match nat_of_string n0 with
+   | Some n1 -> p_files n1 ts'
+   | None -> None)
+
+(** val doc_of :
+    string list -> (string list * yaml option) list -> yaml option option **)
+
+let rec doc_of p = function
+| [] -> None
+| p0 :: fs ->
+  let (q, d) = p0 in
+  if list_eq_dec string_dec p q then Some d else doc_of p fs
+
+(** val dir_doc : yaml **)
+
+let dir_doc =
+  YTagged ((String ((Ascii (false, false, true, true, true, true, false,
+    false)), (String ((Ascii (false, false, true, false, false, true, true,
+    false)), (String ((Ascii (true, false, false, true, false, true, true,
+    false)), (String ((Ascii (false, true, false, false, true, true, true,
+    false)), (String ((Ascii (true, false, true, false, false, true, true,
+    false)), (String ((Ascii (true, true, false, false, false, true, true,
+    false)), (String ((Ascii (false, false, true, false, true, true, true,
+    false)), (String ((Ascii (true, true, true, true, false, true, true,
+    false)), (String ((Ascii (false, true, false, false, true, true, true,
+    false)), (String ((Ascii (true, false, false, true, true, true, true,
+    false)), (String ((Ascii (false, true, true, true, true, true, false,
+    false)), EmptyString)))))))))))))))))))))), YNull)
+
+(** val class_table :
+    (string list * yaml option) list -> cls_entry list res **)
+
+let class_table files =
+  bind (discover KClass true (map fst files)) (fun es -> Ok
+    (map (fun e -> { ce_name = e.en_name; ce_doc =
+      (match doc_of e.en_path files with
+       | Some o -> (match o with
+                    | Some d -> d
+                    | None -> dir_doc)
+       | None -> dir_doc); ce_loc = e.en_loc }) es))
+
+(** val node_table :
+    bool -> (string list * yaml option) list -> node_entry list res **)
+
+let node_table compose files =
+  bind (discover KNode compose (map fst files)) (fun es -> Ok
+    (map (fun e -> { ne_name = e.en_name; ne_path = e.en_path; ne_doc =
+      (match doc_of e.en_path files with
+       | Some o -> (match o with
+                    | Some d -> d
+                    | None -> dir_doc)
+       | None -> dir_doc) }) es))
+
+(** val canon_nodeinfo : nodeinfo -> string **)
+
+let canon_nodeinfo i =
+  append (hx i.ni_node)
+    (append (String ((Ascii (false, false, false, false, false, true, false,
+      false)), EmptyString))
+      (append (hx i.ni_name)
+        (append (String ((Ascii (false, false, false, false, false, true,
+          false, false)), EmptyString))
+          (append (hx i.ni_uri)
+            (append (String ((Ascii (false, false, false, false, false, true,
+              false, false)), EmptyString))
+              (append (hx i.ni_env)
+                (append (String ((Ascii (false, false, false, false, false,
+                  true, false, false)), (String ((Ascii (true, false, false,
+                  false, false, false, true, false)), (String ((Ascii (false,
+                  false, false, false, false, true, false, false)),
+                  EmptyString))))))
+                  (append (canon_strs i.ni_apps)
+                    (append (String ((Ascii (false, false, false, false,
+                      false, true, false, false)), (String ((Ascii (true,
+                      true, false, false, false, false, true, false)),
+                      (String ((Ascii (false, false, false, false, false,
+                      true, false, false)), EmptyString))))))
+                      (append (canon_strs i.ni_classes)
+                        (append (String ((Ascii (false, false, false, false,
+                          false, true, false, false)), (String ((Ascii
+                          (false, false, false, false, true, false, true,
+                          false)), (String ((Ascii (false, false, false,
+                          false, false, true, false, false)),
+                          EmptyString)))))) (canon false (VMap i.ni_params)))))))))))))
+
+(** val sort_index : index -> index **)
+
+let sort_index ix =
+  fold_right (fun pat acc ->
+    let (k, ns) = pat in
+    let rec ins l = match l with
+    | [] -> (k, ns) :: []
+    | p :: l' ->
+      let (k', ns') = p in
+      if leb0 k k' then (k, ns) :: l else (k', ns') :: (ins l')
+    in ins acc) [] ix
+
+(** val canon_index : index -> string **)
+
+let rec canon_index = function
+| [] -> EmptyString
+| p :: ix' ->
+  let (k, ns) = p in
+  append (String ((Ascii (false, false, false, false, false, true, false,
+    false)), EmptyString))
+    (append (hx k)
+      (append (String ((Ascii (false, false, false, false, false, true,
+        false, false)), EmptyString))
+        (append (canon_strs ns) (canon_index ix'))))
+
+(** val lookup_info :
+    string -> (string * nodeinfo) list -> nodeinfo option **)
+
+let rec lookup_info n0 = function
+| [] -> None
+| p :: l' -> let (k, i) = p in if eqb1 k n0 then Some i else lookup_info n0 l'
+
+(** val canon_inventory : inventory -> string **)
+
+let canon_inventory inv =
+  let nodes =
+    map fst
+      (sort_index
+        (map (fun pat -> let (n0, _) = pat in (n0, [])) inv.inv_nodes))
+  in
+  append (String ((Ascii (true, false, false, false, false, false, true,
+    false)), EmptyString))
+    (append (canon_index (sort_index inv.inv_apps))
+      (append (String ((Ascii (false, false, false, false, false, true,
+        false, false)), (String ((Ascii (true, true, false, false, false,
+        false, true, false)), EmptyString))))
+        (append (canon_index (sort_index inv.inv_classes))
+          (append (String ((Ascii (false, false, false, false, false, true,
+            false, false)), (String ((Ascii (false, true, true, true, false,
+            false, true, false)), (String ((Ascii (false, false, false,
+            false, false, true, false, false)), EmptyString))))))
+            (append (nat_to_string (length nodes))
+              (concat_str
+                (map (fun n0 ->
+                  match lookup_info n0 inv.inv_nodes with
+                  | Some i ->
+                    append (String ((Ascii (false, false, false, false,
+                      false, true, false, false)), (String ((Ascii (false,
+                      false, true, true, true, true, true, false)), (String
+                      ((Ascii (false, false, false, false, false, true,
+                      false, false)), EmptyString)))))) (canon_nodeinfo i)
+                  | None ->
+                    String ((Ascii (false, false, false, false, false, true,
+                      false, false)), (String ((Ascii (false, false, true,
+                      true, true, true, true, false)), (String ((Ascii
+                      (false, false, false, false, false, true, false,
+                      false)), (String ((Ascii (true, true, true, true, true,
+                      true, false, false)), EmptyString)))))))) nodes)))))))
+
+(** val run_inv : string list -> string **)
+
+let run_inv = function
+| [] ->
+  String ((Ascii (false, true, false, false, false, true, true, false)),
+    (String ((Ascii (true, false, false, false, false, true, true, false)),
+    (String ((Ascii (false, false, true, false, false, true, true, false)),
+    (String ((Ascii (true, true, false, false, false, true, true, false)),
+    (String ((Ascii (true, false, false, false, false, true, true, false)),
+    (String ((Ascii (true, true, false, false, true, true, true, false)),
+    (String ((Ascii (true, false, true, false, false, true, true, false)),
+    EmptyString)))))))))))))
+| ig :: l ->
+  (match l with
+   | [] ->
+     String ((Ascii (false, true, false, false, false, true, true, false)),
+       (String ((Ascii (true, false, false, false, false, true, true,
+       false)), (String ((Ascii (false, false, true, false, false, true,
+       true, false)), (String ((Ascii (true, true, false, false, false, true,
+       true, false)), (String ((Ascii (true, false, false, false, false,
+       true, true, false)), (String ((Ascii (true, true, false, false, true,
+       true, true, false)), (String ((Ascii (true, false, true, false, false,
+       true, true, false)), EmptyString)))))))))))))
+   | co :: l0 ->
+     (match l0 with
+      | [] ->
+        String ((Ascii (false, true, false, false, false, true, true,
+          false)), (String ((Ascii (true, false, false, false, false, true,
+          true, false)), (String ((Ascii (false, false, true, false, false,
+          true, true, false)), (String ((Ascii (true, true, false, false,
+          false, true, true, false)), (String ((Ascii (true, false, false,
+          false, false, true, true, false)), (String ((Ascii (true, true,
+          false, false, true, true, true, false)), (String ((Ascii (true,
+          false, true, false, false, true, true, false)),
+          EmptyString)))))))))))))
+      | dots :: ts1 ->
+        (match p_bool ig with
+         | Some ig0 ->
+           (match p_bool co with
+            | Some co0 ->
+              (match p_bool dots with
+               | Some dots0 ->
+                 (match ts1 with
+                  | [] ->
+                    String ((Ascii (false, true, false, false, false, true,
+                      true, false)), (String ((Ascii (true, false, false,
+                      false, false, true, true, false)), (String ((Ascii
+                      (false, false, true, false, false, true, true, false)),
+                      (String ((Ascii (true, true, false, false, false, true,
+                      true, false)), (String ((Ascii (true, false, false,
+                      false, false, true, true, false)), (String ((Ascii
+                      (true, true, false, false, true, true, true, false)),
+                      (String ((Ascii (true, false, true, false, false, true,
+                      true, false)), EmptyString)))))))))))))
+                  | nm :: ts2 ->
+                    (match nat_of_string nm with
+                     | Some nm0 ->
+                       (match match p_strs nm0 ts2 with
+                              | Some p ->
+                                let (_, l1) = p in
+                                (match l1 with
+                                 | [] -> None
+                                 | k :: ts2' ->
+                                   (match nat_of_string k with
+                                    | Some k0 -> p_strs k0 ts2'
+                                    | None -> None))
+                              | None -> None with
+                        | Some p ->
+                          let (matches, ts3) = p in
+                          (match p_count_files ts3 with
+                           | Some p0 ->
+                             let (cfiles, ts4) = p0 in
+                             (match p_count_files ts4 with
+                              | Some p1 ->
+                                let (nfiles, ts5) = p1 in
+                                let cfg = { c_ignore = ig0; c_matches =
+                                  matches; c_compose = co0; c_literal_dots =
+                                  dots0 }
+                                in
+                                let tables =
+                                  bind (node_table co0 nfiles) (fun nt ->
+                                    bind (class_table cfiles) (fun ct -> Ok
+                                      (nt, ct)))
+                                in
+                                (match ts5 with
+                                 | [] ->
+                                   String ((Ascii (false, true, false, false,
+                                     false, true, true, false)), (String
+                                     ((Ascii (true, false, false, false,
+                                     false, true, true, false)), (String
+                                     ((Ascii (false, false, true, false,
+                                     false, true, true, false)), (String
+                                     ((Ascii (true, true, false, false,
+                                     false, true, true, false)), (String
+                                     ((Ascii (true, false, false, false,
+                                     false, true, true, false)), (String
+                                     ((Ascii (true, true, false, false, true,
+                                     true, true, false)), (String ((Ascii
+                                     (true, false, true, false, false, true,
+                                     true, false)), EmptyString)))))))))))))
+                                 | op :: l1 ->
+                                   (match l1 with
+                                    | [] ->
+                                      if eqb1 op (String ((Ascii (true,
+                                           false, false, false, false, true,
+                                           true, false)), (String ((Ascii
+                                           (false, false, true, true, false,
+                                           true, true, false)), (String
+                                           ((Ascii (false, false, true, true,
+                                           false, true, true, false)),
+                                           EmptyString))))))
+                                      then canon_res canon_inventory
+                                             (bind tables (fun pat ->
+                                               let (nt, ct) = pat in
+                                               inventory_of
+                                                 (map (fun ne -> (ne.ne_name,
+                                                   (render_node inc_fuel
+                                                     run_fuel cfg (String
+                                                     ((Ascii (false, false,
+                                                     true, true, true, true,
+                                                     false, false)), (String
+                                                     ((Ascii (false, true,
+                                                     true, true, false,
+                                                     false, true, false)),
+                                                     (String ((Ascii (true,
+                                                     true, true, true, false,
+                                                     false, true, false)),
+                                                     (String ((Ascii (false,
+                                                     false, true, false,
+                                                     false, false, true,
+                                                     false)), (String ((Ascii
+                                                     (true, false, true,
+                                                     false, false, false,
+                                                     true, false)), (String
+                                                     ((Ascii (true, true,
+                                                     false, false, true,
+                                                     false, true, false)),
+                                                     (String ((Ascii (false,
+                                                     true, true, true, true,
+                                                     true, false, false)),
+                                                     EmptyString))))))))))))))
+                                                     nt ct ne.ne_name))) nt)
+                                                 empty_inventory))
+                                      else if eqb1 op (String ((Ascii (false,
+                                                true, true, true, false,
+                                                true, true, false)), (String
+                                                ((Ascii (true, false, false,
+                                                false, false, true, true,
+                                                false)), (String ((Ascii
+                                                (true, false, true, true,
+                                                false, true, true, false)),
+                                                (String ((Ascii (true, false,
+                                                true, false, false, true,
+                                                true, false)), (String
+                                                ((Ascii (true, true, false,
+                                                false, true, true, true,
+                                                false)), EmptyString))))))))))
+                                           then canon_res (fun pat ->
+                                                  let (ns, cs) = pat in
+                                                  append (String ((Ascii
+                                                    (false, true, true, true,
+                                                    false, false, true,
+                                                    false)), EmptyString))
+                                                    (append
+                                                      (canon_index
+                                                        (sort_index
+                                                          (map (fun e ->
+                                                            (e.en_name,
+                                                            ((join (String
+                                                               ((Ascii (true,
+                                                               true, true,
+                                                               true, false,
+                                                               true, false,
+                                                               false)),
+                                                               EmptyString))
+                                                               e.en_path) :: [])))
+                                                            ns)))
+                                                      (append (String ((Ascii
+                                                        (false, false, false,
+                                                        false, false, true,
+                                                        false, false)),
+                                                        (String ((Ascii
+                                                        (true, true, false,
+                                                        false, false, false,
+                                                        true, false)),
+                                                        EmptyString))))
+                                                        (canon_index
+                                                          (sort_index
+                                                            (map (fun e ->
+                                                              (e.en_name,
+                                                              ((join (String
+                                                                 ((Ascii
+                                                                 (true, true,
+                                                                 true, true,
+                                                                 false, true,
+                                                                 false,
+                                                                 false)),
+                                                                 EmptyString))
+                                                                 e.en_path) :: [])))
+                                                              cs))))))
+                                                  (bind
+                                                    (discover KNode co0
+                                                      (map fst nfiles))
+                                                    (fun ns ->
+                                                    bind
+                                                      (discover KClass true
+                                                        (map fst cfiles))
+                                                      (fun cs -> Ok (ns, cs))))
+                                           else String ((Ascii (false, true,
+                                                  false, false, false, true,
+                                                  true, false)), (String
+                                                  ((Ascii (true, false,
+                                                  false, false, false, true,
+                                                  true, false)), (String
+                                                  ((Ascii (false, false,
+                                                  true, false, false, true,
+                                                  true, false)), (String
+                                                  ((Ascii (true, true, false,
+                                                  false, false, true, true,
+                                                  false)), (String ((Ascii
+                                                  (true, false, false, false,
+                                                  false, true, true, false)),
+                                                  (String ((Ascii (true,
+                                                  true, false, false, true,
+                                                  true, true, false)),
+                                                  (String ((Ascii (true,
+                                                  false, true, false, false,
+                                                  true, true, false)),
+                                                  EmptyString)))))))))))))
+                                    | s :: l2 ->
+                                      (match s with
+                                       | EmptyString ->
+                                         String ((Ascii (false, true, false,
+                                           false, false, true, true, false)),
+                                           (String ((Ascii (true, false,
+                                           false, false, false, true, true,
+                                           false)), (String ((Ascii (false,
+                                           false, true, false, false, true,
+                                           true, false)), (String ((Ascii
+                                           (true, true, false, false, false,
+                                           true, true, false)), (String
+                                           ((Ascii (true, false, false,
+                                           false, false, true, true, false)),
+                                           (String ((Ascii (true, true,
+                                           false, false, true, true, true,
+                                           false)), (String ((Ascii (true,
+                                           false, true, false, false, true,
+                                           true, false)),
+                                           EmptyString)))))))))))))
+                                       | String (a, h) ->
+                                         let Ascii (b, b0, b1, b2, b3, b4,
+                                                    b5, b6) = a
+                                         in
+                                         if b
+                                         then if b0
+                                              then if b1
+                                                   then String ((Ascii
+                                                          (false, true,
+                                                          false, false,
+                                                          false, true, true,
+                                                          false)), (String
+                                                          ((Ascii (true,
+                                                          false, false,
+                                                          false, false, true,
+                                                          true, false)),
+                                                          (String ((Ascii
+                                                          (false, false,
+                                                          true, false, false,
+                                                          true, true,
+                                                          false)), (String
+                                                          ((Ascii (true,
+                                                          true, false, false,
+                                                          false, true, true,
+                                                          false)), (String
+                                                          ((Ascii (true,
+                                                          false, false,
+                                                          false, false, true,
+                                                          true, false)),
+                                                          (String ((Ascii
+                                                          (true, true, false,
+                                                          false, true, true,
+                                                          true, false)),
+                                                          (String ((Ascii
+                                                          (true, false, true,
+                                                          false, false, true,
+                                                          true, false)),
+                                                          EmptyString)))))))))))))
+                                                   else if b2
+                                                        then String ((Ascii
+                                                               (false, true,
+                                                               false, false,
+                                                               false, true,
+                                                               true, false)),
+                                                               (String
+                                                               ((Ascii (true,
+                                                               false, false,
+                                                               false, false,
+                                                               true, true,
+                                                               false)),
+                                                               (String
+                                                               ((Ascii
+                                                               (false, false,
+                                                               true, false,
+                                                               false, true,
+                                                               true, false)),
+                                                               (String
+                                                               ((Ascii (true,
+                                                               true, false,
+                                                               false, false,
+                                                               true, true,
+                                                               false)),
+                                                               (String
+                                                               ((Ascii (true,
+                                                               false, false,
+                                                               false, false,
+                                                               true, true,
+                                                               false)),
+                                                               (String
+                                                               ((Ascii (true,
+                                                               true, false,
+                                                               false, true,
+                                                               true, true,
+                                                               false)),
+                                                               (String
+                                                               ((Ascii (true,
+                                                               false, true,
+                                                               false, false,
+                                                               true, true,
+                                                               false)),
+                                                               EmptyString)))))))))))))
+                                                        else if b3
+                                                             then if b4
+                                                                  then 
+                                                                    String
+                                                                    ((Ascii
+                                                                    (false,
+                                                                    true,
+                                                                    false,
+                                                                    false,
+                                                                    false,
+                                                                    true,
+                                                                    true,
+                                                                    false)),
+                                                                    (String
+                                                                    ((Ascii
+                                                                    (true,
+                                                                    false,
+                                                                    false,
+                                                                    false,
+                                                                    false,
+                                                                    true,
+                                                                    true,
+                                                                    false)),
+                                                                    (String
+                                                                    ((Ascii
+                                                                    (false,
+                                                                    false,
+                                                                    true,
+                                                                    false,
+                                                                    false,
+                                                                    true,
+                                                                    true,
+                                                                    false)),
+                                                                    (String
+                                                                    ((Ascii
+                                                                    (true,
+                                                                    true,
+                                                                    false,
+                                                                    false,
+                                                                    false,
+                                                                    true,
+                                                                    true,
+                                                                    false)),
+                                                                    (String
+                                                                    ((Ascii
+                                                                    (true,
+                                                                    false,
+                                                                    false,
+                                                                    false,
+                                                                    false,
+                                                                    true,
+                                                                    true,
+                                                                    false)),
+                                                                    (String
+                                                                    ((Ascii
+                                                                    (true,
+                                                                    true,
+                                                                    false,
+                                                                    false,
+                                                                    true,
+                                                                    true,
+                                                                    true,
+                                                                    false)),
+                                                                    (String
+                                                                    ((Ascii
+                                                                    (true,
+                                                                    false,
+                                                                    true,
+                                                                    false,
+                                                                    false,
+                                                                    true,
+                                                                    true,
+                                                                    false)),
+                                                                    EmptyString)))))))))))))
+                                                                  else 
+                                                                    if b5
+                                                                    then 
+                                                                    if b6
+                                                                    then 
+                                                                    String
+                                                                    ((Ascii
+                                                                    (false,
+                                                                    true,
+                                                                    false,
+                                                                    false,
+                                                                    false,
+                                                                    true,
+                                                                    true,
+                                                                    false)),
+                                                                    (String
+                                                                    ((Ascii
+                                                                    (true,
+                                                                    false,
+                                                                    false,
+                                                                    false,
+                                                                    false,
+                                                                    true,
+                                                                    true,
+                                                                    false)),
+                                                                    (String
+                                                                    ((Ascii
+                                                                    (false,
+                                                                    false,
+                                                                    true,
+                                                                    false,
+                                                                    false,
+                                                                    true,
+                                                                    true,
+                                                                    false)),
+                                                                    (String
+                                                                    ((Ascii
+                                                                    (true,
+                                                                    true,
+                                                                    false,
+                                                                    false,
+                                                                    false,
+                                                                    true,
+                                                                    true,
+                                                                    false)),
+                                                                    (String
+                                                                    ((Ascii
+                                                                    (true,
+                                                                    false,
+                                                                    false,
+                                                                    false,
+                                                                    false,
+                                                                    true,
+                                                                    true,
+                                                                    false)),
+                                                                    (String
+                                                                    ((Ascii
+                                                                    (true,
+                                                                    true,
+                                                                    false,
+                                                                    false,
+                                                                    true,
+                                                                    true,
+                                                                    true,
+                                                                    false)),
+                                                                    (String
+                                                                    ((Ascii
+                                                                    (true,
+                                                                    false,
+                                                                    true,
+                                                                    false,
+                                                                    false,
+                                                                    true,
+                                                                    true,
+                                                                    false)),
+                                                                    EmptyString)))))))))))))
+                                                                    else 
+                                                                    (match l2 with
+                                                                    | [] ->
+                                                                    if 
+                                                                    eqb1 op
+                                                                    (String
+                                                                    ((Ascii
+                                                                    (false,
+                                                                    true,
+                                                                    true,
+                                                                    true,
+                                                                    false,
+                                                                    true,
+                                                                    true,
+                                                                    false)),
+                                                                    (String
+                                                                    ((Ascii
+                                                                    (true,
+                                                                    true,
+                                                                    true,
+                                                                    true,
+                                                                    false,
+                                                                    true,
+                                                                    true,
+                                                                    false)),
+                                                                    (String
+                                                                    ((Ascii
+                                                                    (false,
+                                                                    false,
+                                                                    true,
+                                                                    false,
+                                                                    false,
+                                                                    true,
+                                                                    true,
+                                                                    false)),
+                                                                    (String
+                                                                    ((Ascii
+                                                                    (true,
+                                                                    false,
+                                                                    true,
+                                                                    false,
+                                                                    false,
+                                                                    true,
+                                                                    true,
+                                                                    false)),
+                                                                    EmptyString))))))))
+                                                                    then 
+                                                                    (match 
+                                                                    unhex h with
+                                                                    | Some name ->
+                                                                    canon_res
+                                                                    canon_nodeinfo
+                                                                    (bind
+                                                                    tables
+                                                                    (fun pat ->
+                                                                    let (
+                                                                    nt, ct) =
+                                                                    pat
+                                                                    in
+                                                                    render_node
+                                                                    inc_fuel
+                                                                    run_fuel
+                                                                    cfg
+                                                                    (String
+                                                                    ((Ascii
+                                                                    (false,
+                                                                    false,
+                                                                    true,
+                                                                    true,
+                                                                    true,
+                                                                    true,
+                                                                    false,
+                                                                    false)),
+                                                                    (String
+                                                                    ((Ascii
+                                                                    (false,
+                                                                    true,
+                                                                    true,
+                                                                    true,
+                                                                    false,
+                                                                    false,
+                                                                    true,
+                                                                    false)),
+                                                                    (String
+                                                                    ((Ascii
+                                                                    (true,
+                                                                    true,
+                                                                    true,
+                                                                    true,
+                                                                    false,
+                                                                    false,
+                                                                    true,
+                                                                    false)),
+                                                                    (String
+                                                                    ((Ascii
+                                                                    (false,
+                                                                    false,
+                                                                    true,
+                                                                    false,
+                                                                    false,
+                                                                    false,
+                                                                    true,
+                                                                    false)),
+                                                                    (String
+                                                                    ((Ascii
+                                                                    (true,
+                                                                    false,
+                                                                    true,
+                                                                    false,
+                                                                    false,
+                                                                    false,
+                                                                    true,
+                                                                    false)),
+                                                                    (String
+                                                                    ((Ascii
+                                                                    (true,
+                                                                    true,
+                                                                    false,
+                                                                    false,
+                                                                    true,
+                                                                    false,
+                                                                    true,
+                                                                    false)),
+                                                                    (String
+                                                                    ((Ascii
+                                                                    (false,
+                                                                    true,
+                                                                    true,
+                                                                    true,
+                                                                    true,
+                                                                    true,
+                                                                    false,
+                                                                    false)),
+                                                                    EmptyString))))))))))))))
+                                                                    nt ct name))
+                                                                    | None ->
+                                                                    String
+                                                                    ((Ascii
+                                                                    (false,
+                                                                    true,
+                                                                    false,
+                                                                    false,
+                                                                    false,
+                                                                    true,
+                                                                    true,
+                                                                    false)),
+                                                                    (String
+                                                                    ((Ascii
+                                                                    (true,
+                                                                    false,
+                                                                    false,
+                                                                    false,
+                                                                    false,
+                                                                    true,
+                                                                    true,
+                                                                    false)),
+                                                                    (String
+                                                                    ((Ascii
+                                                                    (false,
+                                                                    false,
+                                                                    true,
+                                                                    false,
+                                                                    false,
+                                                                    true,
+                                                                    true,
+                                                                    false)),
+                                                                    (String
+                                                                    ((Ascii
+                                                                    (true,
+                                                                    true,
+                                                                    false,
+                                                                    false,
+                                                                    false,
+                                                                    true,
+                                                                    true,
+                                                                    false)),
+                                                                    (String
+                                                                    ((Ascii
+                                                                    (true,
+                                                                    false,
+                                                                    false,
+                                                                    false,
+                                                                    false,
+                                                                    true,
+                                                                    true,
+                                                                    false)),
+                                                                    (String
+                                                                    ((Ascii
+                                                                    (true,
+                                                                    true,
+                                                                    false,
+                                                                    false,
+                                                                    true,
+                                                                    true,
+                                                                    true,
+                                                                    false)),
+                                                                    (String
+                                                                    ((Ascii
+                                                                    (true,
+                                                                    false,
+                                                                    true,
+                                                                    false,
+                                                                    false,
+                                                                    true,
+                                                                    true,
+                                                                    false)),
+                                                                    EmptyString))))))))))))))
+                                                                    else 
+                                                                    String
+                                                                    ((Ascii
+                                                                    (false,
+                                                                    true,
+                                                                    false,
+                                                                    false,
+                                                                    false,
+                                                                    true,
+                                                                    true,
+                                                                    false)),
+                                                                    (String
+                                                                    ((Ascii
+                                                                    (true,
+                                                                    false,
+                                                                    false,
+                                                                    false,
+                                                                    false,
+                                                                    true,
+                                                                    true,
+                                                                    false)),
+                                                                    (String
+                                                                    ((Ascii
+                                                                    (false,
+                                                                    false,
+                                                                    true,
+                                                                    false,
+                                                                    false,
+                                                                    true,
+                                                                    true,
+                                                                    false)),
+                                                                    (String
+                                                                    ((Ascii
+                                                                    (true,
+                                                                    true,
+                                                                    false,
+                                                                    false,
+                                                                    false,
+                                                                    true,
+                                                                    true,
+                                                                    false)),
+                                                                    (String
+                                                                    ((Ascii
+                                                                    (true,
+                                                                    false,
+                                                                    false,
+                                                                    false,
+                                                                    false,
+                                                                    true,
+                                                                    true,
+                                                                    false)),
+                                                                    (String
+                                                                    ((Ascii
+                                                                    (true,
+                                                                    true,
+                                                                    false,
+                                                                    false,
+                                                                    true,
+                                                                    true,
+                                                                    true,
+                                                                    false)),
+                                                                    (String
+                                                                    ((Ascii
+                                                                    (true,
+                                                                    false,
+                                                                    true,
+                                                                    false,
+                                                                    false,
+                                                                    true,
+                                                                    true,
+                                                                    false)),
+                                                                    EmptyString)))))))))))))
+                                                                    | _ :: _ ->
+                                                                    String
+                                                                    ((Ascii
+                                                                    (false,
+                                                                    true,
+                                                                    false,
+                                                                    false,
+                                                                    false,
+                                                                    true,
+                                                                    true,
+                                                                    false)),
+                                                                    (String
+                                                                    ((Ascii
+                                                                    (true,
+                                                                    false,
+                                                                    false,
+                                                                    false,
+                                                                    false,
+                                                                    true,
+                                                                    true,
+                                                                    false)),
+                                                                    (String
+                                                                    ((Ascii
+                                                                    (false,
+                                                                    false,
+                                                                    true,
+                                                                    false,
+                                                                    false,
+                                                                    true,
+                                                                    true,
+                                                                    false)),
+                                                                    (String
+                                                                    ((Ascii
+                                                                    (true,
+                                                                    true,
+                                                                    false,
+                                                                    false,
+                                                                    false,
+                                                                    true,
+                                                                    true,
+                                                                    false)),
+                                                                    (String
+                                                                    ((Ascii
+                                                                    (true,
+                                                                    false,
+                                                                    false,
+                                                                    false,
+                                                                    false,
+                                                                    true,
+                                                                    true,
+                                                                    false)),
+                                                                    (String
+                                                                    ((Ascii
+                                                                    (true,
+                                                                    true,
+                                                                    false,
+                                                                    false,
+                                                                    true,
+                                                                    true,
+                                                                    true,
+                                                                    false)),
+                                                                    (String
+                                                                    ((Ascii
+                                                                    (true,
+                                                                    false,
+                                                                    true,
+                                                                    false,
+                                                                    false,
+                                                                    true,
+                                                                    true,
+                                                                    false)),
+                                                                    EmptyString))))))))))))))
+                                                                    else 
+                                                                    String
+                                                                    ((Ascii
+                                                                    (false,
+                                                                    true,
+                                                                    false,
+                                                                    false,
+                                                                    false,
+                                                                    true,
+                                                                    true,
+                                                                    false)),
+                                                                    (String
+                                                                    ((Ascii
+                                                                    (true,
+                                                                    false,
+                                                                    false,
+                                                                    false,
+                                                                    false,
+                                                                    true,
+                                                                    true,
+                                                                    false)),
+                                                                    (String
+                                                                    ((Ascii
+                                                                    (false,
+                                                                    false,
+                                                                    true,
+                                                                    false,
+                                                                    false,
+                                                                    true,
+                                                                    true,
+                                                                    false)),
+                                                                    (String
+                                                                    ((Ascii
+                                                                    (true,
+                                                                    true,
+                                                                    false,
+                                                                    false,
+                                                                    false,
+                                                                    true,
+                                                                    true,
+                                                                    false)),
+                                                                    (String
+                                                                    ((Ascii
+                                                                    (true,
+                                                                    false,
+                                                                    false,
+                                                                    false,
+                                                                    false,
+                                                                    true,
+                                                                    true,
+                                                                    false)),
+                                                                    (String
+                                                                    ((Ascii
+                                                                    (true,
+                                                                    true,
+                                                                    false,
+                                                                    false,
+                                                                    true,
+                                                                    true,
+                                                                    true,
+                                                                    false)),
+                                                                    (String
+                                                                    ((Ascii
+                                                                    (true,
+                                                                    false,
+                                                                    true,
+                                                                    false,
+                                                                    false,
+                                                                    true,
+                                                                    true,
+                                                                    false)),
+                                                                    EmptyString)))))))))))))
+                                                             else String
+                                                                    ((Ascii
+                                                                    (false,
+                                                                    true,
+                                                                    false,
+                                                                    false,
+                                                                    false,
+                                                                    true,
+                                                                    true,
+                                                                    false)),
+                                                                    (String
+                                                                    ((Ascii
+                                                                    (true,
+                                                                    false,
+                                                                    false,
+                                                                    false,
+                                                                    false,
+                                                                    true,
+                                                                    true,
+                                                                    false)),
+                                                                    (String
+                                                                    ((Ascii
+                                                                    (false,
+                                                                    false,
+                                                                    true,
+                                                                    false,
+                                                                    false,
+                                                                    true,
+                                                                    true,
+                                                                    false)),
+                                                                    (String
+                                                                    ((Ascii
+                                                                    (true,
+                                                                    true,
+                                                                    false,
+                                                                    false,
+                                                                    false,
+                                                                    true,
+                                                                    true,
+                                                                    false)),
+                                                                    (String
+                                                                    ((Ascii
+                                                                    (true,
+                                                                    false,
+                                                                    false,
+                                                                    false,
+                                                                    false,
+                                                                    true,
+                                                                    true,
+                                                                    false)),
+                                                                    (String
+                                                                    ((Ascii
+                                                                    (true,
+                                                                    true,
+                                                                    false,
+                                                                    false,
+                                                                    true,
+                                                                    true,
+                                                                    true,
+                                                                    false)),
+                                                                    (String
+                                                                    ((Ascii
+                                                                    (true,
+                                                                    false,
+                                                                    true,
+                                                                    false,
+                                                                    false,
+                                                                    true,
+                                                                    true,
+                                                                    false)),
+                                                                    EmptyString)))))))))))))
+                                              else String ((Ascii (false,
+                                                     true, false, false,
+                                                     false, true, true,
+                                                     false)), (String ((Ascii
+                                                     (true, false, false,
+                                                     false, false, true,
+                                                     true, false)), (String
+                                                     ((Ascii (false, false,
+                                                     true, false, false,
+                                                     true, true, false)),
+                                                     (String ((Ascii (true,
+                                                     true, false, false,
+                                                     false, true, true,
+                                                     false)), (String ((Ascii
+                                                     (true, false, false,
+                                                     false, false, true,
+                                                     true, false)), (String
+                                                     ((Ascii (true, true,
+                                                     false, false, true,
+                                                     true, true, false)),
+                                                     (String ((Ascii (true,
+                                                     false, true, false,
+                                                     false, true, true,
+                                                     false)),
+                                                     EmptyString)))))))))))))
+                                         else String ((Ascii (false, true,
+                                                false, false, false, true,
+                                                true, false)), (String
+                                                ((Ascii (true, false, false,
+                                                false, false, true, true,
+                                                false)), (String ((Ascii
+                                                (false, false, true, false,
+                                                false, true, true, false)),
+                                                (String ((Ascii (true, true,
+                                                false, false, false, true,
+                                                true, false)), (String
+                                                ((Ascii (true, false, false,
+                                                false, false, true, true,
+                                                false)), (String ((Ascii
+                                                (true, true, false, false,
+                                                true, true, true, false)),
+                                                (String ((Ascii (true, false,
+                                                true, false, false, true,
+                                                true, false)),
+                                                EmptyString))))))))))))))))
+                              | None ->
+                                String ((Ascii (false, true, false, false,
+                                  false, true, true, false)), (String ((Ascii
+                                  (true, false, false, false, false, true,
+                                  true, false)), (String ((Ascii (false,
+                                  false, true, false, false, true, true,
+                                  false)), (String ((Ascii (true, true,
+                                  false, false, false, true, true, false)),
+                                  (String ((Ascii (true, false, false, false,
+                                  false, true, true, false)), (String ((Ascii
+                                  (true, true, false, false, true, true,
+                                  true, false)), (String ((Ascii (true,
+                                  false, true, false, false, true, true,
+                                  false)), EmptyString))))))))))))))
+                           | None ->
+                             String ((Ascii (false, true, false, false,
+                               false, true, true, false)), (String ((Ascii
+                               (true, false, false, false, false, true, true,
+                               false)), (String ((Ascii (false, false, true,
+                               false, false, true, true, false)), (String
+                               ((Ascii (true, true, false, false, false,
+                               true, true, false)), (String ((Ascii (true,
+                               false, false, false, false, true, true,
+                               false)), (String ((Ascii (true, true, false,
+                               false, true, true, true, false)), (String
+                               ((Ascii (true, false, true, false, false,
+                               true, true, false)), EmptyString))))))))))))))
+                        | None ->
+                          String ((Ascii (false, true, false, false, false,
+                            true, true, false)), (String ((Ascii (true,
+                            false, false, false, false, true, true, false)),
+                            (String ((Ascii (false, false, true, false,
+                            false, true, true, false)), (String ((Ascii
+                            (true, true, false, false, false, true, true,
+                            false)), (String ((Ascii (true, false, false,
+                            false, false, true, true, false)), (String
+                            ((Ascii (true, true, false, false, true, true,
+                            true, false)), (String ((Ascii (true, false,
+                            true, false, false, true, true, false)),
+                            EmptyString))))))))))))))
+                     | None ->
+                       String ((Ascii (false, true, false, false, false,
+                         true, true, false)), (String ((Ascii (true, false,
+                         false, false, false, true, true, false)), (String
+                         ((Ascii (false, false, true, false, false, true,
+                         true, false)), (String ((Ascii (true, true, false,
+                         false, false, true, true, false)), (String ((Ascii
+                         (true, false, false, false, false, true, true,
+                         false)), (String ((Ascii (true, true, false, false,
+                         true, true, true, false)), (String ((Ascii (true,
+                         false, true, false, false, true, true, false)),
+                         EmptyString)))))))))))))))
+               | None ->
+                 String ((Ascii (false, true, false, false, false, true,
+                   true, false)), (String ((Ascii (true, false, false, false,
+                   false, true, true, false)), (String ((Ascii (false, false,
+                   true, false, false, true, true, false)), (String ((Ascii
+                   (true, true, false, false, false, true, true, false)),
+                   (String ((Ascii (true, false, false, false, false, true,
+                   true, false)), (String ((Ascii (true, true, false, false,
+                   true, true, true, false)), (String ((Ascii (true, false,
+                   true, false, false, true, true, false)),
+                   EmptyString))))))))))))))
+            | None ->
+              String ((Ascii (false, true, false, false, false, true, true,
+                false)), (String ((Ascii (true, false, false, false, false,
+                true, true, false)), (String ((Ascii (false, false, true,
+                false, false, true, true, false)), (String ((Ascii (true,
+                true, false, false, false, true, true, false)), (String
+                ((Ascii (true, false, false, false, false, true, true,
+                false)), (String ((Ascii (true, true, false, false, true,
+                true, true, false)), (String ((Ascii (true, false, true,
+                false, false, true, true, false)), EmptyString))))))))))))))
+         | None ->
+           String ((Ascii (false, true, false, false, false, true, true,
+             false)), (String ((Ascii (true, false, false, false, false,
+             true, true, false)), (String ((Ascii (false, false, true, false,
+             false, true, true, false)), (String ((Ascii (true, true, false,
+             false, false, true, true, false)), (String ((Ascii (true, false,
+             false, false, false, true, true, false)), (String ((Ascii (true,
+             true, false, false, true, true, true, false)), (String ((Ascii
+             (true, false, true, false, false, true, true, false)),
+             EmptyString))))))))))))))))
+
+(** val run_abs : string list -> string **)
+
+let run_abs = function
+| [] ->
+  String ((Ascii (false, true, false, false, false, true, true, false)),
+    (String ((Ascii (true, false, false, false, false, true, true, false)),
+    (String ((Ascii (false, false, true, false, false, true, true, false)),
+    (String ((Ascii (true, true, false, false, false, true, true, false)),
+    (String ((Ascii (true, false, false, false, false, true, true, false)),
+    (String ((Ascii (true, true, false, false, true, true, true, false)),
+    (String ((Ascii (true, false, true, false, false, true, true, false)),
+    EmptyString)))))))))))))
+| n0 :: ts1 ->
+  (match nat_of_string n0 with
+   | Some n1 ->
+     (match p_strs n1 ts1 with
+      | Some p ->
+        let (loc, l) = p in
+        (match l with
+         | [] ->
+           String ((Ascii (false, true, false, false, false, true, true,
+             false)), (String ((Ascii (true, false, false, false, false,
+             true, true, false)), (String ((Ascii (false, false, true, false,
+             false, true, true, false)), (String ((Ascii (true, true, false,
+             false, false, true, true, false)), (String ((Ascii (true, false,
+             false, false, false, true, true, false)), (String ((Ascii (true,
+             true, false, false, true, true, true, false)), (String ((Ascii
+             (true, false, true, false, false, true, true, false)),
+             EmptyString)))))))))))))
+         | s :: l0 ->
+           (match s with
+            | EmptyString ->
+              String ((Ascii (false, true, false, false, false, true, true,
+                false)), (String ((Ascii (true, false, false, false, false,
+                true, true, false)), (String ((Ascii (false, false, true,
+                false, false, true, true, false)), (String ((Ascii (true,
+                true, false, false, false, true, true, false)), (String
+                ((Ascii (true, false, false, false, false, true, true,
+                false)), (String ((Ascii (true, true, false, false, true,
+                true, true, false)), (String ((Ascii (true, false, true,
+                false, false, true, true, false)), EmptyString)))))))))))))
+            | String (a, h) ->
+              let Ascii (b, b0, b1, b2, b3, b4, b5, b6) = a in
+              if b
+              then if b0
+                   then if b1
+                        then String ((Ascii (false, true, false, false,
+                               false, true, true, false)), (String ((Ascii
+                               (true, false, false, false, false, true, true,
+                               false)), (String ((Ascii (false, false, true,
+                               false, false, true, true, false)), (String
+                               ((Ascii (true, true, false, false, false,
+                               true, true, false)), (String ((Ascii (true,
+                               false, false, false, false, true, true,
+                               false)), (String ((Ascii (true, true, false,
+                               false, true, true, true, false)), (String
+                               ((Ascii (true, false, true, false, false,
+                               true, true, false)), EmptyString)))))))))))))
+                        else if b2
+                             then String ((Ascii (false, true, false, false,
+                                    false, true, true, false)), (String
+                                    ((Ascii (true, false, false, false,
+                                    false, true, true, false)), (String
+                                    ((Ascii (false, false, true, false,
+                                    false, true, true, false)), (String
+                                    ((Ascii (true, true, false, false, false,
+                                    true, true, false)), (String ((Ascii
+                                    (true, false, false, false, false, true,
+                                    true, false)), (String ((Ascii (true,
+                                    true, false, false, true, true, true,
+                                    false)), (String ((Ascii (true, false,
+                                    true, false, false, true, true, false)),
+                                    EmptyString)))))))))))))
+                             else if b3
+                                  then if b4
+                                       then String ((Ascii (false, true,
+                                              false, false, false, true,
+                                              true, false)), (String ((Ascii
+                                              (true, false, false, false,
+                                              false, true, true, false)),
+                                              (String ((Ascii (false, false,
+                                              true, false, false, true, true,
+                                              false)), (String ((Ascii (true,
+                                              true, false, false, false,
+                                              true, true, false)), (String
+                                              ((Ascii (true, false, false,
+                                              false, false, true, true,
+                                              false)), (String ((Ascii (true,
+                                              true, false, false, true, true,
+                                              true, false)), (String ((Ascii
+                                              (true, false, true, false,
+                                              false, true, true, false)),
+                                              EmptyString)))))))))))))
+                                       else if b5
+                                            then if b6
+                                                 then String ((Ascii (false,
+                                                        true, false, false,
+                                                        false, true, true,
+                                                        false)), (String
+                                                        ((Ascii (true, false,
+                                                        false, false, false,
+                                                        true, true, false)),
+                                                        (String ((Ascii
+                                                        (false, false, true,
+                                                        false, false, true,
+                                                        true, false)),
+                                                        (String ((Ascii
+                                                        (true, true, false,
+                                                        false, false, true,
+                                                        true, false)),
+                                                        (String ((Ascii
+                                                        (true, false, false,
+                                                        false, false, true,
+                                                        true, false)),
+                                                        (String ((Ascii
+                                                        (true, true, false,
+                                                        false, true, true,
+                                                        true, false)),
+                                                        (String ((Ascii
+                                                        (true, false, true,
+                                                        false, false, true,
+                                                        true, false)),
+                                                        EmptyString)))))))))))))
+                                                 else (match l0 with
+                                                       | [] ->
+                                                         (match unhex h with
+                                                          | Some cls ->
+                                                            sp (String
+                                                              ((Ascii (true,
+                                                              true, true,
+                                                              true, false,
+                                                              true, true,
+                                                              false)),
+                                                              (String ((Ascii
+                                                              (true, true,
+                                                              false, true,
+                                                              false, true,
+                                                              true, false)),
+                                                              EmptyString))))
+                                                              (hx
+                                                                (abs_class_name
+                                                                  loc cls))
+                                                          | None ->
+                                                            String ((Ascii
+                                                              (false, true,
+                                                              false, false,
+                                                              false, true,
+                                                              true, false)),
+                                                              (String ((Ascii
+                                                              (true, false,
+                                                              false, false,
+                                                              false, true,
+                                                              true, false)),
+                                                              (String ((Ascii
+                                                              (false, false,
+                                                              true, false,
+                                                              false, true,
+                                                              true, false)),
+                                                              (String ((Ascii
+                                                              (true, true,
+                                                              false, false,
+                                                              false, true,
+                                                              true, false)),
+                                                              (String ((Ascii
+                                                              (true, false,
+                                                              false, false,
+                                                              false, true,
+                                                              true, false)),
+                                                              (String ((Ascii
+                                                              (true, true,
+                                                              false, false,
+                                                              true, true,
+                                                              true, false)),
+                                                              (String ((Ascii
+                                                              (true, false,
+                                                              true, false,
+                                                              false, true,
+                                                              true, false)),
+                                                              EmptyString))))))))))))))
+                                                       | _ :: _ ->
+                                                         String ((Ascii
+                                                           (false, true,
+                                                           false, false,
+                                                           false, true, true,
+                                                           false)), (String
+                                                           ((Ascii (true,
+                                                           false, false,
+                                                           false, false,
+                                                           true, true,
+                                                           false)), (String
+                                                           ((Ascii (false,
+                                                           false, true,
+                                                           false, false,
+                                                           true, true,
+                                                           false)), (String
+                                                           ((Ascii (true,
+                                                           true, false,
+                                                           false, false,
+                                                           true, true,
+                                                           false)), (String
+                                                           ((Ascii (true,
+                                                           false, false,
+                                                           false, false,
+                                                           true, true,
+                                                           false)), (String
+                                                           ((Ascii (true,
+                                                           true, false,
+                                                           false, true, true,
+                                                           true, false)),
+                                                           (String ((Ascii
+                                                           (true, false,
+                                                           true, false,
+                                                           false, true, true,
+                                                           false)),
+                                                           EmptyString))))))))))))))
+                                            else String ((Ascii (false, true,
+                                                   false, false, false, true,
+                                                   true, false)), (String
+                                                   ((Ascii (true, false,
+                                                   false, false, false, true,
+                                                   true, false)), (String
+                                                   ((Ascii (false, false,
+                                                   true, false, false, true,
+                                                   true, false)), (String
+                                                   ((Ascii (true, true,
+                                                   false, false, false, true,
+                                                   true, false)), (String
+                                                   ((Ascii (true, false,
+                                                   false, false, false, true,
+                                                   true, false)), (String
+                                                   ((Ascii (true, true,
+                                                   false, false, true, true,
+                                                   true, false)), (String
+                                                   ((Ascii (true, false,
+                                                   true, false, false, true,
+                                                   true, false)),
+                                                   EmptyString)))))))))))))
+                                  else String ((Ascii (false, true, false,
+                                         false, false, true, true, false)),
+                                         (String ((Ascii (true, false, false,
+                                         false, false, true, true, false)),
+                                         (String ((Ascii (false, false, true,
+                                         false, false, true, true, false)),
+                                         (String ((Ascii (true, true, false,
+                                         false, false, true, true, false)),
+                                         (String ((Ascii (true, false, false,
+                                         false, false, true, true, false)),
+                                         (String ((Ascii (true, true, false,
+                                         false, true, true, true, false)),
+                                         (String ((Ascii (true, false, true,
+                                         false, false, true, true, false)),
+                                         EmptyString)))))))))))))
+                   else String ((Ascii (false, true, false, false, false,
+                          true, true, false)), (String ((Ascii (true, false,
+                          false, false, false, true, true, false)), (String
+                          ((Ascii (false, false, true, false, false, true,
+                          true, false)), (String ((Ascii (true, true, false,
+                          false, false, true, true, false)), (String ((Ascii
+                          (true, false, false, false, false, true, true,
+                          false)), (String ((Ascii (true, true, false, false,
+                          true, true, true, false)), (String ((Ascii (true,
+                          false, true, false, false, true, true, false)),
+                          EmptyString)))))))))))))
+              else String ((Ascii (false, true, false, false, false, true,
+                     true, false)), (String ((Ascii (true, false, false,
+                     false, false, true, true, false)), (String ((Ascii
+                     (false, false, true, false, false, true, true, false)),
+                     (String ((Ascii (true, true, false, false, false, true,
+                     true, false)), (String ((Ascii (true, false, false,
+                     false, false, true, true, false)), (String ((Ascii
+                     (true, true, false, false, true, true, true, false)),
+                     (String ((Ascii (true, false, true, false, false, true,
+                     true, false)), EmptyString)))))))))))))))
+      | None ->
+        String ((Ascii (false, true, false, false, false, true, true,
+          false)), (String ((Ascii (true, false, false, false, false, true,
+          true, false)), (String ((Ascii (false, false, true, false, false,
+          true, true, false)), (String ((Ascii (true, true, false, false,
+          false, true, true, false)), (String ((Ascii (true, false, false,
+          false, false, true, true, false)), (String ((Ascii (true, true,
+          false, false, true, true, true, false)), (String ((Ascii (true,
+          false, true, false, false, true, true, false)),
+          EmptyString))))))))))))))
+   | None ->
+     String ((Ascii (false, true, false, false, false, true, true, false)),
+       (String ((Ascii (true, false, false, false, false, true, true,
+       false)), (String ((Ascii (false, false, true, false, false, true,
+       true, false)), (String ((Ascii (true, true, false, false, false, true,
+       true, false)), (String ((Ascii (true, false, false, false, false,
+       true, true, false)), (String ((Ascii (true, true, false, false, true,
+       true, true, false)), (String ((Ascii (true, false, true, false, false,
+       true, true, false)), EmptyString))))))))))))))
+
+(** val run_line2 : string -> string **)
+
+let run_line2 line =
+  match words line with
+  | [] ->
+    String ((Ascii (false, true, false, false, false, true, true, false)),
+      (String ((Ascii (true, false, false, false, false, true, true, false)),
+      (String ((Ascii (false, false, true, false, false, true, true, false)),
+      (String ((Ascii (false, false, true, true, false, true, true, false)),
+      (String ((Ascii (true, false, false, true, false, true, true, false)),
+      (String ((Ascii (false, true, true, true, false, true, true, false)),
+      (String ((Ascii (true, false, true, false, false, true, true, false)),
+      EmptyString)))))))))))))
+  | id :: l ->
+    (match l with
+     | [] ->
+       String ((Ascii (false, true, false, false, false, true, true, false)),
+         (String ((Ascii (true, false, false, false, false, true, true,
+         false)), (String ((Ascii (false, false, true, false, false, true,
+         true, false)), (String ((Ascii (false, false, true, true, false,
+         true, true, false)), (String ((Ascii (true, false, false, true,
+         false, true, true, false)), (String ((Ascii (false, true, true,
+         true, false, true, true, false)), (String ((Ascii (true, false,
+         true, false, false, true, true, false)), EmptyString)))))))))))))
+     | mode :: ts ->
+       if eqb1 mode (String ((Ascii (true, false, false, true, false, true,
+            true, false)), (String ((Ascii (false, true, true, true, false,
+            true, true, false)), (String ((Ascii (false, true, true, false,
+            true, true, true, false)), EmptyString))))))
+       then append id (append tab (run_inv ts))
+       else if eqb1 mode (String ((Ascii (true, false, false, false, false,
+                 true, true, false)), (String ((Ascii (false, true, false,
+                 false, false, true, true, false)), (String ((Ascii (true,
+                 true, false, false, true, true, true, false)),
+                 EmptyString))))))
+            then append id (append tab (run_abs ts))
+            else run_line line)
